@@ -630,7 +630,10 @@ impl<'a> Ctx<'a> {
                 };
                 let nested = self.scope.iter().any(|s| s.name == "item");
                 let rename = nested || self.r.chance(0.2);
-                let (item, idx) = if rename {
+                let (item, idx) = if !nested && self.r.chance(0.08) {
+                    // legal and nasty: the default names, exchanged
+                    ("index".to_string(), "item".to_string())
+                } else if rename {
                     let d = self.scope.len();
                     (format!("it{}", d), format!("ix{}", d))
                 } else {
@@ -642,7 +645,19 @@ impl<'a> Ctx<'a> {
                 self.scope.pop();
                 self.scope.pop();
                 let on = if self.r.chance(0.5) { Some("view".to_string()) } else { None };
-                Node::For { list, key, item: if rename { Some(item) } else { None }, index: if rename { Some(idx) } else { None }, children, on }
+                let explicit = item != "item" || idx != "index";
+                // (declaring only one of the two is covered by the C14 grid: here it would turn the
+                // references the children already make into reads of a data field)
+                let only_one = false;
+                let _ = rename;
+                Node::For {
+                    list,
+                    key,
+                    item: if explicit { Some(item) } else { None },
+                    index: if explicit && !only_one { Some(idx) } else { None },
+                    children,
+                    on,
+                }
             }
             13 => Node::Block(self.nodes(depth + 1)),
             14 if self.f.templates && !self.in_template && self.scope.iter().any(|s| matches!(s.kind, Kind::Record | Kind::SubRecord | Kind::Scalar)) && self.r.chance(0.6) => {
